@@ -248,46 +248,63 @@ def run(ctx):
     # ---------------------------------------------------------------- C15.9
     ctx.rule('C15.9', 'the unfinished tail is carried over, never interpreted: in SseDecoder::push the iteration that parks the last (possibly incomplete) line for the next push — every definition of the value that becomes self.buffer after the loop — touches no other decoder field (current_event / current_data) on its way from the loop head. A field update decided by a line whose end the network has not delivered yet (the empty split artefact after a trailing LF is such a line) makes the decoded events depend on where the bytes were cut.')
     DECADT = 'rip_provider_openresponses::SseDecoder'
+    from ..inline import inline_calls as _inl9
+    # per-line handling may sit in a private method of the decoder (`handle_line`): it is spliced in
+    dec_whole = _inl9(P, dec, lambda body, callee: callee.startswith('rip_provider_openresponses::SseDecoder::') and not callee.endswith('::parse_event') and not callee.endswith('::push'), depth=2, note=ctx.note)
 
     def dec_field(pl):
-        if not isinstance(pl, dict) or pl.get('l') != 1:
+        # any place reached through a reference to the decoder (self, or a spliced helper's self)
+        if not isinstance(pl, dict):
             return None
         for pp in pl.get('p', []):
             if isinstance(pp, dict) and pp.get('o') == DECADT:
                 return pp.get('n')
         return None
-    buf_sets = [(bi, st) for bi, b in enumerate(dec.blocks) if not dec.is_cleanup(bi) for st in b['s'] if dec_field(st.get('d')) == 'buffer' and st.get('rv', {}).get('k') == 'use']
-    lp = dec.loops()
-    tail_l = set()
-    for bi, st in buf_sets:
-        if any(bi in body for body in lp.values()):
-            continue
-        l_ = dec.root_local(st['rv']['a'][0], through_calls=(r'::unwrap_or_default$', r'::unwrap_or$', r'::unwrap_or_else$', r'::take$'))
-        if l_ is not None:
-            tail_l.add(l_)
-    if len(tail_l) != 1 or not lp:
-        raise CheckError('C15.9: the carried-over tail of SseDecoder::push was not identified (buffer assignments after the loop: %d, candidates %s)' % (len(buf_sets), sorted(tail_l)))
-    tl = next(iter(tail_l))
-    n9 = 0
-    for h9, body in lp.items():
-        fwd = dec.reach([h9], stop=()) & body
-        for (db, di, dst) in [(bi, si, st) for bi in range(len(dec.blocks)) if not dec.is_cleanup(bi) and bi != h9 and dec.dom(h9, bi) for si, st in enumerate(dec.blocks[bi]['s']) if st.get('d', {}).get('l') == tl and not st['d'].get('p')]:
-            n9 += 1
-            # blocks of this iteration that lie on a path head -> parking block (no second pass through the head)
-            on_path = {x for x in range(len(dec.blocks)) if (x == h9 or x in dec.reach_from_after(h9, stop=(h9,))) and (x == db or db in dec.reach_from_after(x, stop=(h9,)))}
-            touched = []
-            for x in sorted(on_path):
-                for st in dec.blocks[x]['s']:
-                    fl = dec_field(st.get('d'))
-                    if fl and fl != 'buffer':
-                        touched.append((fl, st.get('ln')))
-                    rv = st.get('rv', {})
-                    if rv.get('k') == 'ref' and rv.get('mut') and dec_field(rv.get('pl')) not in (None, 'buffer'):
-                        touched.append((dec_field(rv.get('pl')), st.get('ln')))
-            ctx.ob('C15.9', dec, 'tail-parked-without-state-change', not touched,
-                   'the iteration that parks the tail (line %s) changes no decoder field besides the buffer' % dst.get('ln') if not touched else
-                   'self.%s is modified (line %s) on the way to parking the tail at line %s: the update is decided by a line that may be incomplete, so a chunk ending at that point decodes differently from the unsplit stream' % (touched[0][0], touched[0][1], dst.get('ln')), line=dst.get('ln'))
-    ctx.floor('C15.9', 'tail-parking sites in SseDecoder::push', n9, 2)
+
+    def c159(dec):
+        buf_sets = [(bi, st) for bi, b in enumerate(dec.blocks) if not dec.is_cleanup(bi) for st in b['s'] if dec_field(st.get('d')) == 'buffer' and st.get('rv', {}).get('k') == 'use']
+        lp = dec.loops()
+        after = [(bi, st) for bi, st in buf_sets if not any(bi in body for body in lp.values())]
+        tail_l = set()
+        reads = set()
+        for bi, st in after:
+            l_ = dec.root_local(st['rv']['a'][0], through_calls=(r'::unwrap_or_default$', r'::unwrap_or$', r'::unwrap_or_else$', r'::take$'))
+            if l_ is not None:
+                tail_l.add(l_)
+            reads |= reads_locals(dec, st['rv']['a'][0])
+        heads = set(lp)
+        def defined_in_a_loop(l_):
+            return any(any(h != d_[0] and dec.dom(h, d_[0]) for h in heads) for d_ in dec.defs(l_))
+        if not lp or not after or not any(defined_in_a_loop(l_) for l_ in reads | tail_l):
+            # the tail is cut off before the line loop runs (rsplit_once / a scan for the last LF): no iteration of the
+            # loop ever holds an incomplete line, there is nothing to park
+            ctx.ob('C15.9', dec, 'tail-cut-before-the-loop', bool(after), 'what becomes self.buffer is computed outside the line loop: the loop only ever sees complete lines' if after else 'SseDecoder::push never stores a tail', line=after[0][1].get('ln') if after else dec.line)
+            return
+        if len(tail_l) != 1:
+            raise CheckError('C15.9: the carried-over tail of SseDecoder::push was not identified (buffer assignments after the loop: %d, candidates %s)' % (len(buf_sets), sorted(tail_l)))
+        tl = next(iter(tail_l))
+        n9 = 0
+        for h9, body in lp.items():
+            for (db, di, dst) in [(bi, si, st) for bi in range(len(dec.blocks)) if not dec.is_cleanup(bi) and bi != h9 and dec.dom(h9, bi) for si, st in enumerate(dec.blocks[bi]['s']) if st.get('d', {}).get('l') == tl and not st['d'].get('p')]:
+                n9 += 1
+                # blocks of this iteration that lie on a path head -> parking block (no second pass through the head)
+                on_path = {x for x in range(len(dec.blocks)) if (x == h9 or x in dec.reach_from_after(h9, stop=(h9,))) and (x == db or db in dec.reach_from_after(x, stop=(h9,)))}
+                touched = []
+                for x in sorted(on_path):
+                    for st in dec.blocks[x]['s']:
+                        fl = dec_field(st.get('d'))
+                        if fl and fl != 'buffer':
+                            touched.append((fl, st.get('ln')))
+                        rv = st.get('rv', {})
+                        if rv.get('k') == 'ref' and rv.get('mut') and dec_field(rv.get('pl')) not in (None, 'buffer'):
+                            touched.append((dec_field(rv.get('pl')), st.get('ln')))
+                ctx.ob('C15.9', dec, 'tail-parked-without-state-change', not touched,
+                       'the iteration that parks the tail (line %s) changes no decoder field besides the buffer' % dst.get('ln') if not touched else
+                       'self.%s is modified (line %s) on the way to parking the tail at line %s: the update is decided by a line that may be incomplete, so a chunk ending at that point decodes differently from the unsplit stream' % (touched[0][0], touched[0][1], dst.get('ln')), line=dst.get('ln'))
+        ctx.floor('C15.9', 'tail-parking sites in SseDecoder::push', n9, 2)
+    c159(dec_whole)
+    dec_plain = dec
+    dec = dec_whole
 
     # ---------------------------------------------------------------- C15.10
     ctx.rule('C15.10', 'whether an event is dispatched is decided by how many data lines it had, not by what they contained: the innermost test guarding parse_event in SseDecoder::push that looks at a decoder field must not be the emptiness / length of accumulated TEXT (String / str) — `data:` followed by a blank line is a server-sent event with an empty payload and owes a frame (and an empty first line of a multi-line payload must survive).')
@@ -315,6 +332,7 @@ def run(ctx):
                'the dispatch test is %s' % (gs.callee.rsplit('::', 2)[-2] + '::' + gs.name if not texty else
                '%s on accumulated TEXT (line %s): an event whose data is the empty string yields no frame, and "no data line yet" cannot be told from "one empty data line"' % (gs.name, gs.line)), line=gs.line)
 
+    dec = dec_plain
     # ---------------------------------------------------------------- C15.6
     ctx.rule('C15.6', 'payload verbatim at the source: every ParsedEvent the decoder builds stores its raw / data / event fields straight from the constructor parameters (through Some / clone only) — never the result of a validation or normalisation helper (validation works on a copy; the frame carries what the provider sent). And in OpenResponsesSsePipe::push_sse_str every chunk reaches SseDecoder::push, unconditionally and unmodified: a chunk skipped because of what it contains (blank, padding) changes where events end.')
     TRANSP = r'::clone$|::to_string$|::to_owned$|::into$|::from$|::as_ref$|::deref$|::as_str$|::borrow$'
